@@ -253,8 +253,8 @@ def applicable(pipe, cls):
     return []
 
 
-SEQ_FIRST = ["unknown-fit-method@last", "unknown-weight-keyword@ew", "fitdesc-without-method@last", "dependence-fit-fails"]
-SEQ_SECOND = ["too-few-intervals-data", "data-wrong-columns", "fitdesc-wrong-length", "unknown-fit-method@0", "nan-in-data"]
+SEQ_FIRST = ["unknown-fit-method@last", "unknown-weight-keyword@ew", "fitdesc-without-method@last", "dependence-fit-fails", "narrow-data", "too-few-intervals-data", "one-interval-data"]
+SEQ_SECOND = ["too-few-intervals-data", "data-wrong-columns", "fitdesc-wrong-length", "unknown-fit-method@0", "nan-in-data", "narrow-data"]
 
 
 def seq_cases():
@@ -423,6 +423,19 @@ def run_sequence(pipe, faults):
                 col = D[:, j]
                 keep = np.arange(len(col)) % 33 == 0
                 D[:, j] = np.where(keep, col, float(np.median(col)))
+        elif c == "narrow-data":
+            # all conditioning values inside (0.2, 1.8): two intervals of the default width 1, both well
+            # filled - fewer than the three demanded
+            D = data.copy()
+            for j in _conditioning_dims(pipe):
+                col = D[:, j]
+                D[:, j] = 0.2 + 1.6 * (col - col.min()) / (col.max() - col.min())
+        elif c == "one-interval-data":
+            # all conditioning values inside (0.2, 0.9): one interval of the default width 1
+            D = data.copy()
+            for j in _conditioning_dims(pipe):
+                col = D[:, j]
+                D[:, j] = 0.2 + 0.7 * (col - col.min()) / (col.max() - col.min())
         elif c == "data-wrong-columns":
             D = np.column_stack([data, data[:, 0]])
         elif c == "fitdesc-wrong-length":
@@ -755,6 +768,13 @@ def execute_seq(prop, scen):
             run.inconclusive = "second request is accepted by a fresh model as well (not ill-formed for this pipeline)"
             run.nontrivial = False
             return run
+        if faults[0]["cls"] in ("narrow-data", "too-few-intervals-data", "one-interval-data"):
+            # whether these data leave too few intervals depends on the slicer of the pipeline
+            fresh0, _ = run_sequence(pipe, [faults[0]])
+            if not fresh0[0]:
+                run.inconclusive = "first request is accepted by a fresh model (not ill-formed for this pipeline)"
+                run.nontrivial = False
+                return run
         raised, exc = run_sequence(pipe, faults)
         run.event("sequence", faults, [raised, type(exc).__name__ if exc else None], ["F4:" + f["cls"] for f in faults])
         for f in faults:
